@@ -79,9 +79,26 @@ static inline Item draw(vt::Rng& g, long wide) {
   } else {
     if (g.chance(2)) it.sv = ""; else if (g.chance(30)) { int64_t x = v; it.sv.assign((const char*)&x, 8); }
     else it.sv = "k" + std::to_string(v);
-    if (it.type == 11 && it.sv.empty()) it.sv = "z";
+    if (it.type == 11 && it.sv.empty() && !g.chance(50)) it.sv = "z";     // a zero-length buffer with a non-null pointer IS an item
   }
   return it;
+}
+
+// edge values of every update overload (the union's overloads must be the same functions of their argument as the sketch's):
+// zero-length buffer with a non-null pointer, empty string (ignored), NaN variants, -0.0 / 0.0, infinities, extremes of every
+// integer width, the same number through different widths
+static inline std::vector<Item> edge_items() {
+  std::vector<Item> v;
+  auto I = [&](int t, long long x) { Item it; it.type = t; it.iv = x; it.dv = 0; v.push_back(it); };
+  auto D = [&](int t, double x) { Item it; it.type = t; it.iv = 0; it.dv = x; v.push_back(it); };
+  auto S = [&](int t, const std::string& x) { Item it; it.type = t; it.iv = 0; it.dv = 0; it.sv = x; v.push_back(it); };
+  S(11, ""); S(10, ""); S(11, std::string(1, '\0')); S(10, "a"); S(11, "a");
+  uint64_t nb = 0xfff8000000000123ULL; double qn; memcpy(&qn, &nb, 8);
+  D(8, std::nan("1")); D(9, std::nanf("2")); D(8, qn); D(8, -0.0); D(8, 0.0); D(9, -0.0); D(9, 0.0); D(8, INFINITY); D(9, -INFINITY); D(8, 1.5); D(9, 1.5);
+  I(0, -1); I(1, -1); I(2, -1); I(3, -1); I(4, -1); I(5, -1); I(6, -1); I(7, -1);
+  I(0, 0); I(1, 0); I(2, 200); I(3, 200); I(4, 200); I(5, 200); I(6, 200); I(7, 200);
+  I(1, INT64_MIN); I(0, (long long)0x8000000000000000ULL); I(3, INT32_MIN); I(2, 0x80000000LL); I(5, -32768); I(4, 0x8000); I(7, -128); I(6, 0x80);
+  return v;
 }
 
 // Steering pool: u64 items whose reference coupon value is high (>= 12), so that HLL_4 aux exceptions (value - curMin >= 15),
@@ -259,7 +276,7 @@ static inline std::string phys(const hll_sketch& s, uint32_t addr, bool full_arr
       if (tb == 1) { size_t sb = slot * 6, ix = sb >> 3; unsigned two = (unsigned)u[40 + ix] | ((unsigned)u[40 + ix + 1] << 8); return (int)((two >> (sb & 7)) & 63); }
       return u[40 + slot];
     };
-    r.i("cm", u[6]).i("nac", nac).i("auxn", auxn).i("raw", raw_at(addr & (k - 1)));
+    r.i("cm", u[6]).i("nac", nac).i("auxn", auxn).i("raw", raw_at(addr & (k - 1))).b("ooo", (u[5] & 16) != 0);
     if (tb == 0) {
       std::vector<Coupon> a;
       for (size_t p = 40 + k / 2; p + 4 <= u.size(); p += 4) { uint32_t c; memcpy(&c, &u[p], 4); if (c) a.push_back({(uint32_t)((c & 0x3ffffffu) & (k - 1)), c >> 26}); }
@@ -279,7 +296,13 @@ template<class S> static inline void est_fields(Ev& r, const S& s) {
     lb.push_back(s.get_lower_bound((uint8_t)k)); ub.push_back(s.get_upper_bound((uint8_t)k));
     lbF.push_back(fl(lb.back())); ubF.push_back(fl(ub.back()));
   }
-  r.d("est", est).d("cest", cest).dl("lb", lb).dl("ub", ub).i("estF", fl(est)).il("lbF", lbF).il("ubF", ubF);
+  // relative half-widths of the bounds in ppm of the estimate (unit conversion; compared with sd * RSE(lg_k) by the specification)
+  std::vector<long long> lbW, ubW;
+  for (int k = 0; k < 3; k++) {
+    lbW.push_back(est > 0 ? std::min(2000000000LL, (long long)std::llround((est - lb[k]) / est * 1e6)) : -1);
+    ubW.push_back(est > 0 ? std::min(2000000000LL, (long long)std::llround((ub[k] - est) / est * 1e6)) : -1);
+  }
+  r.d("est", est).d("cest", cest).dl("lb", lb).dl("ub", ub).i("estF", fl(est)).il("lbF", lbF).il("ubF", ubF).il("lbW", lbW).il("ubW", ubW);
 }
 
 // full projection of a sketch as a JSON object
